@@ -1,4 +1,4 @@
-import OsacaVerif.Lemmas.A64Kinds
+import OsacaVerif.Lemmas.A64Vector
 import OsacaVerif.Lemmas.A64File
 /-
   C10 — AArch64 parser recovers every line and operand exactly as written.
@@ -228,21 +228,38 @@ example : (match parseLine (ofString "ldr x0, [x1, w2, SXTW #3]") with
     | _ => 0) = 8 := by decide +kernel
 
 /-! ### round trip of rendered instruction lines -/
-/-- operand kinds for which the full round trip is closed so far -/
-inductive CoveredKind : OpA → Prop where
-  | scalar (p n : Nat) (hp : isScalarPrefixC p = true) : CoveredKind (.reg (.scalar p n))
-  | int (i : IntA) : CoveredKind (.int i)
+/-- the 17 condition codes of the architecture are what the grammar knows (ties `Gen` to the ISA) -/
+theorem conditions_complete : condLits = [ofString "eq", ofString "ne", ofString "cs", ofString "hs",
+    ofString "cc", ofString "lo", ofString "mi", ofString "pl", ofString "vs", ofString "vc", ofString "hi",
+    ofString "ls", ofString "ge", ofString "lt", ofString "gt", ofString "le", ofString "al"] := by decide
 
-theorem coveredKind_covered (o : OpA) (h : CoveredKind o) (last : Bool) : CoveredOp last o := by
+/-- operand kinds for which the full round trip is closed so far;
+    `fst`: the operand stands in the first operand slot (a condition code may not) -/
+inductive CoveredKind : Bool → OpA → Prop where
+  | scalar (fst : Bool) (p n : Nat) (hp : isScalarPrefixC p = true) : CoveredKind fst (.reg (.scalar p n))
+  | alias (fst : Bool) (t : Txt) (ht : t ∈ aliasTexts) : CoveredKind fst (.reg (.alias t))
+  | vec (fst : Bool) (p n : Nat) (lanes : Option Txt) (shape idx : Option Nat) (hp : isVectorPrefixC p = true)
+      (hl : LanesOk lanes) (hs : ShapeOk shape) : CoveredKind fst (.reg (.vec p n lanes shape idx))
+  | int (fst : Bool) (i : IntA) : CoveredKind fst (.int i)
+  | cond (c : Txt) (hc : lower c ∈ condLits) : CoveredKind false (.cond c)
+
+theorem coveredKind_covered (fst : Bool) (o : OpA) (h : CoveredKind fst o) (last : Bool) : CoveredOp last fst o := by
   cases h with
-  | scalar p n hp => exact covered_scalar last p n hp
-  | int i => exact covered_int last i
+  | scalar _ p n hp => exact covered_scalar last fst p n hp
+  | alias _ t ht => exact covered_alias last fst t ht
+  | vec _ p n lanes shape idx hp hl hs => exact covered_vec last fst p n lanes shape idx hp hl hs
+  | int _ i => exact covered_int last fst i
+  | cond c hc => exact covered_cond last c hc
 
-theorem opsCovered_of_kinds (os : List OpA) (h : ∀ o ∈ os, CoveredKind o) : OpsCovered os := by
-  induction os with
+/-- every operand is of a covered kind at its position -/
+def KindsOk : Bool → List OpA → Prop
+  | _, [] => True
+  | fst, o :: os => CoveredKind fst o ∧ KindsOk false os
+
+theorem opsCovered_of_kinds (fst : Bool) (os : List OpA) (h : KindsOk fst os) : OpsCovered fst os := by
+  induction os generalizing fst with
   | nil => trivial
-  | cons o os ih =>
-    exact ⟨coveredKind_covered o (h o (by simp)) _, ih (fun x hx => h x (by simp [hx]))⟩
+  | cons o os ih => exact ⟨coveredKind_covered fst o h.1 _, ih false h.2⟩
 
 /-
   TODO-FULL  a64_roundtrip: for every instruction AST `a` of the property's domain (`InstrOk a`, operands
@@ -260,9 +277,9 @@ theorem opsCovered_of_kinds (os : List OpA) (h : ∀ o ∈ os, CoveredKind o) : 
     in every gap —, ∀ trailing comments): the rendered line is classified as an instruction, and
     mnemonic, operands and comment are recovered exactly as written. -/
 theorem a64_roundtrip_partial (a : InstrA) (gaps : List Txt) (hok : InstrOk a)
-    (hkinds : ∀ o ∈ a.ops, CoveredKind o) (hl : LayoutOk (linePieces a) gaps) :
+    (hkinds : KindsOk true a.ops) (hl : LayoutOk (linePieces a) gaps) :
     parseLine (render a gaps) = .ok (expectLine a) :=
-  roundtrip_covered a gaps hok (opsCovered_of_kinds a.ops hkinds) hl
+  roundtrip_covered a gaps hok (opsCovered_of_kinds true a.ops hkinds) hl
 
 /-- executable check of `LayoutOk` (for examples) -/
 def layoutOkB : List Piece → List Txt → Bool
